@@ -215,6 +215,10 @@ def run(tier: str, seed: int) -> int:
             for f, kind, name, vis in table:
                 for loc in LOCS:
                     ok = access(vis, loc) if kind == "struct" else (access(vis, loc) and access(ev, loc))
+                    if f == "range" and "iter" in d.cfg.feats:
+                        # range() returns the iterator struct: rustc's type-privacy check makes the path
+                        # unusable wherever that struct is not visible
+                        ok = ok and access(d.cfg.feats["iter"].get("vis", ev), loc)
                     counts["by_location"][loc] = counts["by_location"].get(loc, 0) + 1
                     if loc == "ext":
                         continue
@@ -261,6 +265,8 @@ def run(tier: str, seed: int) -> int:
             ext_pos = []
             for f, kind, name, vis in lib_table:
                 ok = access(vis, "ext") if kind == "struct" else (access(vis, "ext") and access(lev, "ext"))
+                if f == "range" and "iter" in d.cfg.feats:
+                    ok = ok and access(d.cfg.feats["iter"].get("vis", lev), "ext")
                 path = "vdefs::m%06d::outer::inner::" % d.id
                 if ok:
                     ext_pos.append(probe_expr(kind, path, name, f, True))
